@@ -259,13 +259,39 @@ def harness_env():
             "CARGO_NET_OFFLINE": "true"}
 
 
-def harness_build(binname, release=False, crate=HARNESS, timeout=1500):
+def harness_build(binname, release=False, crate=HARNESS, timeout=1500, profile=None):
+    """profile: None/'dev' (debug assertions + overflow checks), 'release' (neither),
+    'relchk' (optimised, overflow checks ON, debug assertions OFF - defined in harness/Cargo.toml)"""
+    if profile is None:
+        profile = "release" if release else "dev"
     cmd = ["cargo", "build", "--offline", "--quiet", "--bin", binname]
-    if release:
+    if profile == "release":
         cmd.append("--release")
+    elif profile != "dev":
+        cmd += ["--profile", profile]
     rc, out = sh(cmd, cwd=crate, env=harness_env(), timeout=timeout)
-    path = os.path.join(HARNESS, "target", "release" if release else "debug", binname)
+    path = os.path.join(HARNESS, "target", "debug" if profile == "dev" else profile, binname)
     return rc == 0 and os.path.exists(path), out, path
+
+
+def profile_diff(binname, items, base_out, profiles=("release",), args=()):
+    """Runs the same cases in other build profiles and returns [(index, profile, line)] where the
+    observation differs from the dev-profile observation `base_out`.  Only meaningful for properties
+    whose expected observations do not depend on the build profile (no overflow panics generated)."""
+    diffs, errors = [], []
+    for prof in profiles:
+        ok, log, path = harness_build(binname, profile=prof)
+        if not ok:
+            errors.append((f"harness_build_{prof}", log[-2000:]))
+            continue
+        rc, outl, err = run_bin_parallel(path, [it["line"] for it in items], args=args)
+        if len(outl) != len(items):
+            errors.append((f"harness_run_{prof}", f"lines={len(outl)}/{len(items)} {err[-500:]}"))
+            continue
+        for i, (a, b) in enumerate(zip(base_out, outl)):
+            if a != b:
+                diffs.append((i, prof, b))
+    return diffs, errors
 
 
 def run_bin(path, lines, timeout=1200, args=()):
